@@ -2,6 +2,7 @@
 spec/lin/LinTrace.tla.  Serves C01, C02, C07(a) and C08."""
 import hashlib
 import glob
+import copy
 import json
 import os
 
@@ -70,11 +71,31 @@ def gen_all(tier, seed, per_family_quick=300):
     return out, meta
 
 
-def run_corpus(tier, seed, props, tag, n_random=None, extra_cases=None):
+def run_corpus(tier, seed, props, tag, n_random=None, extra_cases=None, recase=False):
     core.build_harness()
     cases, meta = gen_all(tier, seed)
     if extra_cases:
         cases += extra_cases
+    if recase:
+        # every sixth model with two or more variables again under names whose byte order and case-insensitive order
+        # differ (the variable list of a compiled model is sorted by the plain string order, capitals first)
+        pool = ["a", "B", "Zeta", "xA", "x_1", "b", "C", "Xb"]
+        def ren(t, m):
+            if isinstance(t, dict):
+                return {k: (m.get(v, v) if k == "name" and t.get("op") == "var" else ren(v, m)) for k, v in t.items()}
+            if isinstance(t, list):
+                return [ren(x, m) for x in t]
+            return t
+        more = []
+        for i, c in enumerate(cases):
+            names = [d_["name"] for d_ in c.get("dom", [])]
+            if i % 6 == seed % 6 and 2 <= len(names) <= len(pool) and not any(n.startswith("$") for n in names):
+                m = dict(zip(names, pool[i % 3:] + pool[:i % 3]))
+                c2 = ren(copy.deepcopy(c), m)
+                c2["dom"] = [dict(d_, name=m[d_["name"]]) for d_ in c2["dom"]]
+                c2["id"] = c["id"] + "_case"
+                more.append(c2)
+        cases += more
     d = core.rundir(tag)
     cpath = os.path.join(d, "cases.ndjson")
     core.write_ndjson(cpath, cases)
@@ -144,7 +165,7 @@ def check(prop, tier, seed, replay=None):
         v = core.validate(SPEC_DIR, "LinTrace.tla", "LinTrace.cfg", events, prop + ",STA", prop + "-replay", chunks=1)
         meta = {}
     else:
-        events, v, meta = run_corpus(tier, seed, prop, prop)
+        events, v, meta = run_corpus(tier, seed, prop, prop, recase=(prop == "C08"))
     byid = {e["id"]: e for e in events}
     for r in v.rejects:
         if r[1] != prop:
